@@ -543,3 +543,97 @@ Proof.
   intros Hwf. cbn [get_c get_s]. destruct (sl_ok rsl); [|reflexivity].
   rewrite (product_core _ _ _ Hwf). reflexivity.
 Qed.
+
+(* ---------------------------------------------------------------- attributes *)
+Lemma attr_lengths_refines {A} (s : conc A) : wf s -> attr_lengths s = map (@length A) (abs s).
+Proof. intros H. symmetry. apply lengths_partition. exact H. Qed.
+
+Lemma attr_flatten_refines {A} (s : conc A) : wf s -> attr_flatten s = concat (abs s).
+Proof. intros H. symmetry. apply concat_partition. exact H. Qed.
+
+Lemma attr_size_refines {A} (s : conc A) : wf s -> attr_size s = sum_nat (map (@length A) (abs s)).
+Proof. intros H. unfold attr_size. rewrite sum_lengths_concat, <- (attr_flatten_refines _ H). reflexivity. Qed.
+
+Lemma attr_len_refines {A} (s : conc A) : attr_len s = length (abs s) /\ attr_len s = length (lens s).
+Proof. split; [reflexivity|apply partition_length]. Qed.
+
+Lemma attr_iter_refines {A} (s : conc A) : attr_iter s = abs s.
+Proof. reflexivity. Qed.
+
+Lemma starts_from_length s ls : length (starts_from s ls) = length ls.
+Proof. revert s. induction ls as [|l ls IH]; intros s; cbn [starts_from length]; [reflexivity|]. rewrite IH. reflexivity. Qed.
+
+(* starts[j] = total length of the rows before row j *)
+Lemma starts_prefix_sum ls j :
+  (j < length ls)%nat -> nth j (starts_of ls) 0%nat = sum_nat (firstn j ls).
+Proof.
+  unfold starts_of. revert j. induction ls as [|l ls IH]; intros j Hj; cbn [length] in Hj; [lia|].
+  destruct j as [|j]; cbn [starts_from nth firstn sum_nat fold_right]; [reflexivity|].
+  rewrite (starts_from_shift (0 + l)) by lia. rewrite IH by lia. unfold sum_nat. lia.
+Qed.
+
+Lemma attr_starts_refines {A} (s : conc A) :
+  wf s -> length (attr_starts s) = length (abs s) /\
+  forall j, (j < length (abs s))%nat ->
+            nth j (attr_starts s) 0%nat = length (concat (firstn j (abs s))).
+Proof.
+  intros H. unfold attr_starts, starts_of. rewrite starts_from_length. unfold abs, rows_c. rewrite partition_length.
+  split; [reflexivity|]. intros j Hj. fold (starts_of (lens s)). rewrite starts_prefix_sum by exact Hj.
+  rewrite <- sum_lengths_concat, <- firstn_map, (lengths_partition _ _ H). reflexivity.
+Qed.
+
+Lemma all_equal_some ls l : all_equal ls = Some l <-> (ls <> [] /\ forall x, In x ls -> x = l).
+Proof.
+  destruct ls as [|x ls]; cbn [all_equal].
+  - split; [discriminate|]. intros [H _]. contradiction.
+  - destruct (forallb (Nat.eqb x) ls) eqn:E.
+    + rewrite forallb_forall in E. split.
+      * intros H. inversion H. subst. split; [discriminate|]. intros y [Hy|Hy]; [auto|].
+        symmetry. apply Nat.eqb_eq. apply E. exact Hy.
+      * intros [_ H]. f_equal. apply H. left. reflexivity.
+    + split; [discriminate|]. intros [_ H]. exfalso.
+      assert (X : forallb (Nat.eqb x) ls = true); [|congruence].
+      apply forallb_forall. intros y Hy. apply Nat.eqb_eq.
+      rewrite (H x) by (left; reflexivity). rewrite (H y) by (right; exact Hy). reflexivity.
+Qed.
+
+(* shape[1] is the common row length when all rows are equally long, None otherwise *)
+Lemma attr_shape_refines {A} (s : conc A) l :
+  wf s -> (attr_shape2 s = Some l <-> (abs s <> [] /\ forall row, In row (abs s) -> length row = l)).
+Proof.
+  intros H. unfold attr_shape2. rewrite all_equal_some. rewrite <- (lengths_partition _ _ H). fold (rows_c s). fold (abs s).
+  split; intros [H1 H2]; split.
+  - intros E. apply H1. rewrite E. reflexivity.
+  - intros row Hr. apply H2. apply in_map. exact Hr.
+  - intros E. apply H1. destruct (abs s); [reflexivity|discriminate].
+  - intros x Hx. apply in_map_iff in Hx. destruct Hx as [row [E Hr]]. rewrite <- E. apply H2. exact Hr.
+Qed.
+
+(* ---------------------------------------------------------------- boolean mask *)
+(* a[mask]: given that ra.where(mask) lists the True positions row-major (where_c = where_s, checked per case
+   by the correspondence run; not yet proved for all masks), the read equals the list-of-rows read *)
+Lemma get_mask_refines_partial {A} (s : conc A) m :
+  wf s -> where_c m = Some (where_s m) -> get_c s (Mask m) = get_s (abs s) (Mask m).
+Proof.
+  intros Hwf Hw. cbn [get_c get_s]. rewrite Hw, (gather_spec _ _ Hwf), map_opt_map. reflexivity.
+Qed.
+
+(* all forms at once *)
+Lemma get_refines {A} (s : conc A) i :
+  wf s -> (forall m, i = Mask m -> where_c m = Some (where_s m)) -> get_c s i = get_s (abs s) i.
+Proof.
+  intros Hwf Hm. destruct i.
+  - apply get_row_refines.
+  - apply get_rows_refines.
+  - apply get_rowlist_refines.
+  - apply get_elem_refines; exact Hwf.
+  - apply get_pairs_refines; exact Hwf.
+  - apply get_pairs_scalar_refines; exact Hwf.
+  - apply get_elem_list_refines; exact Hwf.
+  - apply get_sl2ss_refines; exact Hwf.
+  - apply get_sl2ls_refines; exact Hwf.
+  - apply get_sl2si_refines; exact Hwf.
+  - apply get_sl2sl_refines; exact Hwf.
+  - apply get_rowsl_refines.
+  - apply get_mask_refines_partial; [exact Hwf|]. apply Hm. reflexivity.
+Qed.
